@@ -917,8 +917,13 @@ fn exec_op(
                 return false;
             };
             if v.qr.size > MAX_RASTER_QR_SIZE {
-                oracle.lock().unwrap().stats.probe("raster_skipped_large_symbol");
-                return false;
+                // large symbols are rasterised only now and then (a V40 render costs tens of
+                // milliseconds); which ones is a function of the episode, not of timing
+                if crate::rng::mix(ep.seed, ((id as u64) << 32) | op_index as u64) % 12 != 0 {
+                    oracle.lock().unwrap().stats.probe("raster_skipped_large_symbol");
+                    return false;
+                }
+                oracle.lock().unwrap().stats.probe("raster_large_symbol");
             }
             let rk = if *pixmap { "pixmap" } else { "png" };
             let key = format!("R|{}|{}|{}", rk, m.key(), v.digest);
